@@ -74,6 +74,8 @@ def fam_chain(st, cls):
 
 def fam_broadcast(st, cls):
     return [
+        ("bcast_priv_small_pub_big_sum_%s" % st, prog([inp(A(st, [1, 3])), inp(A(st, [2, 3])), nd("Add", [1, 2]), nd("Sum", [3], axes=[0])]), 2, cls),
+        ("bcast_sub_then_sum_%s" % st, prog([inp(A(st, [2, 3])), inp(A(st, [3])), nd("Subtract", [2, 1]), nd("Sum", [3], axes=[1])]), 2, cls),
         ("bcast_mul_%s" % st, prog([inp(A(st, [2])), inp(S(st)), nd("Multiply", [1, 2])]), 2, cls),
         ("bcast_add_%s" % st, prog([inp(A(st, [2, 1])), inp(A(st, [2])), nd("Add", [1, 2]), nd("Multiply", [3, 3])]), 2, cls),
     ]
@@ -87,6 +89,8 @@ def fam_linear(st, cls):
         ("matmul_v_" + st, prog([inp(A(st, [2])), inp(A(st, [2, 2])), nd("Matmul", [1, 2])]), 2, cls),
         ("gemm_tt_" + st, prog([inp(A(st, [2, 1])), inp(A(st, [2, 1])), nd("Gemm", [1, 2], ta=True, tb=False)]), 2, cls),
         ("gemm_nt_" + st, prog([inp(A(st, [1, 2])), inp(A(st, [2, 2])), nd("Gemm", [1, 2], ta=False, tb=True)]), 2, cls),
+        ("dot_commutator_" + st, prog([inp(A(st, [2, 2])), inp(A(st, [2, 2])), nd("Dot", [1, 2]), nd("Dot", [2, 1]), nd("Subtract", [3, 4])]), 2, cls),
+        ("matmul_commutator_" + st, prog([inp(A(st, [2, 2])), inp(A(st, [2, 2])), nd("Matmul", [1, 2]), nd("Matmul", [2, 1]), nd("Subtract", [3, 4])]), 2, cls),
     ]
 
 
@@ -244,6 +248,7 @@ def configs(n_inputs, tier, rng, per_prog):
     base.append((priv, [2, 0], "Simple"))
     base.append((priv[::-1], [], "Default"))
     base.append((["pub"] + priv[1:], [1], "Extreme"))
+    base.append((priv[:1] + ["pub"] * (n_inputs - 1), [0], "Default"))
     base.append((["sh"] + priv[1:], [0, 1, 2], "Simple"))
     base.append(([1] * n_inputs, [0], "Simple"))
     extra = rng.sample(allc, min(len(allc), max(0, per_prog - len(base))))
